@@ -40,6 +40,16 @@ CHECKS = {
         "note": "Trusts lxml's XSD validator and the own copy of the element table (written from the shipped XSD and "
                 "the vehicle-model documentation).",
     },
+    "C20": {
+        "technique": "property-based testing: Hypothesis-generated lanelets / lanelet graphs; own arc-length "
+                     "parametrisation as reference, validity predicate over enumerated routes, traced step budget for "
+                     "termination",
+        "text": "Thousands of lanelets (2-12 vertices, tiny and long segments, collinear runs) queried at 0, full "
+                "length, exactly at and next to vertices; merge pairs with and without gap; thousands of digraphs with "
+                "cycles/diamonds and ranges hitting exact prefix sums. Exploration only; termination up to a step "
+                "budget.",
+        "note": "Tolerance 1e-9*(1+scale) on coordinates; route-length comparison is exact (axis-aligned lanelets).",
+    },
 }
 
 NOT_APPLICABLE = [{"property_id": p, "reason": "check not built yet (work in progress; will be claimed once its "
